@@ -36,6 +36,7 @@ static int c04_main(int argc,char **argv){
         if(!rc){ vorbis_encode_ctl(&vi,OV_ECTL_RATEMANAGE2_GET,&ai); ai.management_active=1; ai.bitrate_limit_max_kbps=mxk; ai.bitrate_limit_min_kbps=0; ai.bitrate_average_kbps=0; ai.bitrate_average_damping=1.5; ai.bitrate_limit_reservoir_bits=mxk*2000; ai.bitrate_limit_reservoir_bias=.1;
           rc=vorbis_encode_ctl(&vi,OV_ECTL_RATEMANAGE2_SET,&ai); if(!rc)rc=vorbis_encode_setup_init(&vi); }
       }else if(tok[3][0]=='M'){ long mx=-1,nm=-1,mn=-1; sscanf(tok[3]+1,"%ld:%ld:%ld",&mx,&nm,&mn); rc=vorbis_encode_init(&vi,ch,rate,mx,nm,mn); } /* hard limits */
+      else if(tok[3][0]=='D') rc=vorbis_encode_init_vbr(&vi,ch,rate,atof(tok[3]+1));   /* unmanaged, packets taken straight from vorbis_analysis(vb,&op) */
       else if(tok[3][0]=='m') rc=vorbis_encode_init(&vi,ch,rate,-1,atol(tok[3]+1),-1);
       else rc=vorbis_encode_init_vbr(&vi,ch,rate,atof(tok[3]));
       if(rc){ printf("init rc=%s\n",ovname(rc)); vorbis_info_clear(&vi); free(line); continue; }
@@ -74,8 +75,10 @@ static int c04_main(int argc,char **argv){
           if(r==1) printf(" pkt lW=%ld W=%ld nW=%ld gp=%lld eos=%d seq=%lld",(long)vb.lW,(long)vb.W,(long)vb.nW,(long long)vb.granulepos,(int)vb.eofflag,(long long)vb.sequence);
           putchar('\n');
           if(r!=1)break;
-          vorbis_analysis(&vb,NULL); vorbis_bitrate_addblock(&vb);
-          while(vorbis_bitrate_flushpacket(&vd,&op)){
+          { int direct=(tok[3][0]=='D'),got;
+          if(direct) got=(vorbis_analysis(&vb,&op)==0);
+          else{ vorbis_analysis(&vb,NULL); vorbis_bitrate_addblock(&vb); got=vorbis_bitrate_flushpacket(&vd,&op); }
+          for(;got;got=direct?0:vorbis_bitrate_flushpacket(&vd,&op)){
             int drc,brc=-999; long cnt=0; float **pcm;
             npk++;
             drc=vorbis_synthesis(&dvb,&op);
@@ -92,6 +95,7 @@ static int c04_main(int argc,char **argv){
               buf_page(&out,&og);
               if(ogg_page_eos(&og))eos=1;
             }
+          }
           }
         }
       }
